@@ -188,6 +188,10 @@ fn check_cfg(c: &Cfg, seed: u64, flips: bool, st: &mut Stats, order: u64) {
             }
         }
     }
+    // (A trial that answered one I/O call with ErrorKind::WouldBlock and had the caller read again was removed: the zstd
+    // decoder underneath does not resume after a non-Interrupted error ("incomplete frame" on the unchanged tree), the
+    // statement speaks of passwords and tampering, and C11 accepts "an error reported" as the outcome of a failing call.
+    // Only ErrorKind::Interrupted, which std's own loops retry, is injected with a retrying caller.)
     // no password
     st.evals += 1;
     match attempt(&bytes, 1, None, 0) {
